@@ -11,83 +11,111 @@ namespace SigV4.C09
 fails with the element's error kind exactly on a malformed escape. -/
 theorem normElem_eq_spec (isPath : Bool) (s : Bytes) :
     normElem isPath s = optToOutcome (elemErr isPath) ((pctDecode true s).map pctEncodeAll) := by
-  sorry
+  exact SigV4.normElem_eq_spec isPath s
 
 /-- Under the property's reading (`+` is an ordinary byte in a path): holds when the element has no
 literal `+`. See `plus_counterexample` for why the hypothesis cannot be dropped on this code. -/
 theorem normElem_path_spec_partial (s : Bytes) (h : (0x2B : UInt8) ∉ s) :
     normElem true s = optToOutcome .InvalidURIPath ((pctDecode false s).map pctEncodeAll) := by
-  sorry
+  rw [pctDecode_eq_of_no_plus s h]; exact SigV4.normElem_eq_spec true s
 
 /-- The finding: a literal `+` in a path element is canonicalised as a space, not as `%2B`. -/
 theorem plus_counterexample :
     normElem true b!"a+b" = .ok b!"a%20b" ∧
     optToOutcome .InvalidURIPath ((pctDecode false b!"a+b").map pctEncodeAll) = .ok b!"a%2Bb" := by
-  sorry
+  decide
 
 /-- Every escape is `%` followed by the two upper-case hex digits of the byte. -/
 theorem pctEncode_shape (c : UInt8) :
     ∃ h l, pctEncode c = [0x25, h, l] ∧ isUpperHexDigit h = true ∧ isUpperHexDigit l = true ∧
       hexVal h = some (c >>> (4 : UInt8)) ∧ hexVal l = some (c &&& (0xF : UInt8)) := by
-  sorry
+  obtain ⟨f1, f2, -, -, -, f6, f7⟩ := pctEncode_facts c
+  exact ⟨_, _, rfl, f6, f7, f1, f2⟩
 
 /-- Output alphabet: only unreserved bytes and `%`; a byte is left literal iff it is unreserved. -/
 theorem pctEncodeAll_alphabet (d : Bytes) : ∀ c ∈ pctEncodeAll d, isUnreserved c = true ∨ c = 0x25 := by
-  sorry
+  exact SigV4.pctEncodeAll_alphabet d
 
 /-- Encoding is injective on decoded strings: decoding the encoding gives the original back,
 under either reading of `+` (the encoding never contains a literal `+`). -/
 theorem pctDecode_pctEncodeAll (plus : Bool) (d : Bytes) : pctDecode plus (pctEncodeAll d) = some d := by
-  sorry
+  exact SigV4.pctDecode_pctEncodeAll plus d
 
 theorem normElem_idempotent (isPath : Bool) (s r : Bytes) (h : normElem isPath s = .ok r) :
     normElem isPath r = .ok r := by
-  sorry
+  rw [SigV4.normElem_eq_spec] at h ⊢
+  cases hd : pctDecode true s with
+  | none => simp [hd] at h
+  | some d =>
+    simp only [hd, Option.map_some, optToOutcome_some, Outcome.ok.injEq] at h
+    subst h
+    simp [SigV4.pctDecode_pctEncodeAll]
 
 /-- Two spellings of the same decoded element normalise identically. -/
 theorem normElem_respell (isPath : Bool) (s s' : Bytes) (h : pctDecode true s = pctDecode true s') :
     normElem isPath s = normElem isPath s' := by
-  sorry
+  rw [SigV4.normElem_eq_spec, SigV4.normElem_eq_spec, h]
 
 /-- The canonical path is the reference normal form, in both modes; failure is `InvalidURIPath`
 exactly for relative paths, malformed escapes and (standard mode) climbing above the root. -/
 theorem canonPath_eq_ref (s3 : Bool) (p : Bytes) :
     canonPath s3 p = optToOutcome .InvalidURIPath (refPath true s3 p) := by
-  sorry
+  exact SigV4.canonPath_eq_ref s3 p
 
 /-- With the property's reading of `+`: holds for paths without a literal `+`. -/
 theorem canonPath_spec_partial (s3 : Bool) (p : Bytes) (h : (0x2B : UInt8) ∉ p) :
     canonPath s3 p = optToOutcome .InvalidURIPath (refPath false s3 p) := by
-  sorry
+  rw [refPath_no_plus s3 p h]; exact SigV4.canonPath_eq_ref s3 p
 
 theorem canonPath_plus_counterexample :
     canonPath false b!"/a+b" = .ok b!"/a%20b" ∧ refPath false false b!"/a+b" = some b!"/a%2Bb" := by
-  sorry
+  decide
 
 theorem canonPath_idempotent (s3 : Bool) (p r : Bytes) (h : canonPath s3 p = .ok r) :
     canonPath s3 r = .ok r := by
-  sorry
+  rw [SigV4.canonPath_eq_ref] at h ⊢
+  cases hr : refPath true s3 p with
+  | none => simp [hr] at h
+  | some r' =>
+    simp only [hr, optToOutcome_some, Outcome.ok.injEq] at h
+    subst h
+    rw [refPath_idempotent s3 p r' hr]; rfl
 
 /-- Insensitivity to percent-encoding choices: paths whose raw segments decode alike canonicalise alike. -/
 theorem canonPath_respell (s3 : Bool) (p p' : Bytes)
     (h : (splitOn 0x2F p).map (pctDecode true) = (splitOn 0x2F p').map (pctDecode true)) :
     canonPath s3 p = canonPath s3 p' := by
-  sorry
+  rw [SigV4.canonPath_eq_ref, SigV4.canonPath_eq_ref, refPath_eq_refOfDecoded, refPath_eq_refOfDecoded, h]
 
 /-- S3 mode preserves every segment: the output has as many segments as the input. -/
 theorem canonPath_s3_preserves_segments (p r : Bytes) (hp : p ≠ []) (h : canonPath true p = .ok r) :
     (splitOn 0x2F r).length = (splitOn 0x2F p).length := by
-  sorry
+  rw [SigV4.canonPath_eq_ref] at h
+  cases hr : refPath true true p with
+  | none => simp [hr] at h
+  | some r' =>
+    simp only [hr, optToOutcome_some, Outcome.ok.injEq] at h
+    subst h
+    exact canonPath_s3_segments p r' hp hr
 
 /-- In standard mode the output has no empty (except a trailing one), `.` or `..` segment. -/
 theorem canonPath_std_no_dot_segments (p r : Bytes) (h : canonPath false p = .ok r) :
     ∀ seg ∈ (splitOn 0x2F r).drop 1, seg ≠ DOT ∧ seg ≠ DOTDOT := by
-  sorry
+  rw [SigV4.canonPath_eq_ref] at h
+  cases hr : refPath true false p with
+  | none => simp [hr] at h
+  | some r' =>
+    simp only [hr, optToOutcome_some, Outcome.ok.injEq] at h
+    subst h
+    exact canonPath_std_no_dots p r' hr
 
 /-- Failures are always `InvalidURIPath`; the function never panics. -/
 theorem canonPath_err_kind (s3 : Bool) (p : Bytes) :
     (∀ k, canonPath s3 p = .err k → k = .InvalidURIPath) ∧ (∀ site, canonPath s3 p ≠ .panic site) := by
-  sorry
+  rw [SigV4.canonPath_eq_ref]
+  cases refPath true s3 p with
+  | none => exact ⟨fun k hk => (by cases hk; rfl), fun site hs => (by cases hs)⟩
+  | some r => exact ⟨fun k hk => (by cases hk), fun site hs => (by cases hs)⟩
 
 -- non-vacuity: the hypotheses above are met by concrete non-trivial inputs
 example : canonPath false b!"/a/%2e%2E/b//c/./d%2fe/" = .ok b!"/b/c/d%2Fe/" := by decide
